@@ -541,7 +541,9 @@ class Seq:
 
     def reversed(self):
         n = self.len
-        return Seq(n, lambda j: self.at(zint(n) - 1 - j), self.sort)
+        r = Seq(n, lambda j: self.at(zint(n) - 1 - j), self.sort)
+        r.rev_of = self
+        return r
 
     def clone(self):
         """Same sequence as a new object (keeps the structural hints of enumerations)."""
